@@ -152,6 +152,7 @@ Proof.
       simpl. rewrite Hho. exact B.
     + (* operation to run *)
       destruct (gather g (preds (c_edges g) n)) as [pv|] eqn:Eg; simpl in H; [|discriminate].
+      destruct (call_ok o pv); simpl in H; [|discriminate].
       assert (HI' := Inv_step _ _ _ _ _ _ HI El Eo Eop Eg).
       destruct (IH _ _ _ _ HI' Hnd' H) as [A B]. split; [exact A|].
       simpl. rewrite Hho. rewrite B. rewrite filter_has_op_add by exact Hnin.
